@@ -49,7 +49,7 @@ type C10 struct {
 	openTx   *chain.TxRecord
 }
 
-func NewC10() *C10          { return &C10{st: NewStats("C10")} }
+func NewC10() *C10           { return &C10{st: NewStats("C10")} }
 func (m *C10) Stats() *Stats { return m.st }
 
 func lkey(addr string, id uint64) string { return fmt.Sprintf("%s/%d", addr, id) }
